@@ -8,7 +8,7 @@ import common, api, tlc, pipe
 CLAUSE_PROPS = {
     "xerbla": {"C15", "C07", "C01"}, "threads": {"C04", "C17"}, "A unchanged": {"C01", "C08", "C11"},
     "B padding": {"C01"}, "perm_c bijection": {"C10", "C09"}, "perm_r bijection": {"C09"},
-    "factor structure": {"C09"}, "reconstruction bound": {"C02", "C01", "C08"}, "multiplier bound": {"C02"},
+    "factor structure": {"C09"}, "reconstruction bound": {"C02", "C01", "C08"}, "multiplier bound": {"C02", "C08"},
     "residual bound": {"C01", "C08"}, "B unchanged on singular": {"C06"}, "A scaling relation": {"C11", "C07"},
     "B scaling relation": {"C11", "C07"}, "query info>n": {"C14"}, "query estimate>0": {"C14"},
     "query X untouched": {"C14"}, "query retains memory": {"C17"}, "query clobbers existing factors / permutations": {"C14", "C08", "C18", "C17"}, "FACTORED modified A": {"C08"},
